@@ -294,6 +294,7 @@ func genC08(t *testing.T) {
 		c.Comment = "random"
 		run(c)
 	}
+	progsC08(t)
 	// real-time part (no bubble): linearizability of concurrent histories and a long soak
 	nh := common.Pick(300, 6000)
 	if !raceMode {
